@@ -32,7 +32,8 @@ ASSUMPTIONS = [
     "(caps and interfaces on the half-integer grid so that a site exists "
     "in every wire-fencing region)",
 ]
-MUST_REACH = ["invalid_rejected", "accepted_initialised", "fixed_point"]
+MUST_REACH = ["invalid_rejected", "accepted_initialised", "fixed_point",
+              "invalid_restart_rejected"]
 JOB_TIMEOUT = 1500
 
 PLUGIN = os.path.join(os.path.dirname(os.path.dirname(
@@ -378,6 +379,53 @@ def _fixed_job(job, scratch):
                             "restart file", "spec": F.brief(spec),
                     "before": {k: b.get(k) for k in diff if k != "current"},
                     "after": {k: a.get(k) for k in diff if k != "current"}})
+            # invalid edits of a restart file must be rejected as well
+            from infretis.setup import TOMLConfigError
+            n_i = len(c1["simulation"]["interfaces"])
+            intf = list(c1["simulation"]["interfaces"])
+            edits = {
+                "too-many-workers": (("runner", "workers"), n_i),
+                "unsorted-interfaces": (("simulation", "interfaces"),
+                                        intf[::-1]),
+                "duplicate-interfaces": (("simulation", "interfaces"),
+                                         [intf[0]] + intf[:-1]),
+                "too-few-moves": (("simulation", "shooting_moves"),
+                                  c1["simulation"]["shooting_moves"][:-1]),
+                "cap-outside-interfaces": (("simulation", "tis_set",
+                                            "interface_cap"), intf[-1] + 2),
+                "lm1-not-below-lambda0": (("simulation", "tis_set",
+                                           "lambda_minus_one"), intf[0] + 1),
+                "undefined-engine": (("simulation", "ensemble_engines"),
+                                     [["nosuch"]] * n_i),
+            }
+            for name, (keys, val) in edits.items():
+                bad = copy.deepcopy(c1)
+                d = bad
+                for k in keys[:-1]:
+                    d = d[k]
+                d[keys[-1]] = val
+                with open("restart_bad.toml", "wb") as f:
+                    tomli_w.dump(bad, f)
+                R.reset_globals()
+                res["reached"]["invalid_restart_rejected"] = \
+                    res["reached"].get("invalid_restart_rejected", 0) + 1
+                try:
+                    got = setup_config("restart_bad.toml")
+                    outcome = "accepted" if got is not None else "none"
+                except TOMLConfigError:
+                    outcome = "config-error"
+                except BaseException as exc:
+                    outcome = f"other:{type(exc).__name__}"
+                if outcome != "config-error":
+                    res["violations"].append({
+                        "mech": "invalid-restart-config-accepted:" + name
+                        if outcome in ("accepted", "none") else
+                        "invalid-restart-config-other-exception:" + name,
+                        "what": f"restart file edited to be invalid ({name}: "
+                                f"{'.'.join(keys)} = {val}) gave {outcome}",
+                        "spec": F.brief(spec)})
+                res["events"]["invalid_restart_edits"] = \
+                    res["events"].get("invalid_restart_edits", 0) + 1
             with open("restart2.toml", "wb") as f:
                 tomli_w.dump(c2, f)
             c2["current"]["cstep"] = c2["current"]["cstep"]
